@@ -371,20 +371,34 @@ def run_shard(spec, ctx):
                     with open(os.path.join(d, sub, "command"), "wb") as f:
                         f.write(b"\n".join(words) + b"\n")
                 equal_names = True
+            modfile = None
+            if r.random() < 0.35:
+                # a keyword list that happens to be named like a decoder module: module selection is about decoders only
+                modfile = r.choice(sorted(astmap))
+                sub = r.choice(["", "sub"])
+                os.makedirs(os.path.join(d, sub), exist_ok=True)
+                with open(os.path.join(d, sub, modfile), "wb") as f:
+                    f.write(b"modword" + modfile.encode() + b"\nshared\n")
             if r.random() < 0.3:
                 open(os.path.join(d, "emptyfile"), "wb").close()
             if r.random() < 0.3:
                 with open(os.path.join(d, "blankonly"), "wb") as f:
                     f.write(b"\n\r\n\n")
-            case = {"kind": "dir", "files": [[str(p.relative_to(d)), p.read_bytes().hex()] for p in sorted(pathlib.Path(d).rglob("*")) if p.is_file()]}
+            case = {"kind": "dir", "files": [[str(p.relative_to(d)), p.read_bytes().hex()] for p in sorted(pathlib.Path(d).rglob("*")) if p.is_file()],
+                    "form": r.choice(["absolute", "absolute", "relative", "./relative", "relative/", "absolute/", "pathlike"])}
+            if modfile is not None:
+                x = r.random()
+                others = r.sample(sorted(astmap), 2)
+                case["include"] = None if x < 0.6 else sorted({modfile, others[0]})
+                case["exclude"] = [modfile] if x < 0.4 else ([modfile, others[1]] if x < 0.6 else (None if x < 0.8 else [others[1]]))
             if ctx.begin(case):
-                judge_dir(d, ctx, case, all_ids, equal_names)
+                judge_dir(d, ctx, case, all_ids, equal_names, astmap)
             shutil.rmtree(d, ignore_errors=True)
     finally:
         shutil.rmtree(base, ignore_errors=True)
 
 
-def judge_dir(d, ctx, case, all_ids, equal_names=False):
+def judge_dir(d, ctx, case, all_ids, equal_names=False, astmap=None):
     from multidecoder import registry as regmod
 
     def report(key, msg):
@@ -394,10 +408,40 @@ def judge_dir(d, ctx, case, all_ids, equal_names=False):
     ctx.count("custom_dirs")
     if equal_names:
         ctx.count("dirs_with_equal_names")
-    reg = regmod.build_registry(d)
+    form = case.get("form", "absolute")
+    ctx.count("directory_argument:" + form)
+    include, exclude = case.get("include"), case.get("exclude")
+    kwargs = {}
+    if include is not None:
+        kwargs["include"] = list(include)
+    if exclude is not None:
+        kwargs["exclude"] = list(exclude)
+    if kwargs:
+        ctx.count("custom_dirs_with_module_selection")
+    old = os.getcwd()
+    try:
+        # the directory argument is a path like any other: relative to the working directory, with or without a trailing
+        # separator, as a string or an os.PathLike
+        if form in ("relative", "./relative", "relative/"):
+            os.chdir(os.path.dirname(d))
+            arg = {"relative": os.path.basename(d), "./relative": "./" + os.path.basename(d), "relative/": os.path.basename(d) + "/"}[form]
+        elif form == "absolute/":
+            arg = d + "/"
+        elif form == "pathlike":
+            arg = pathlib.Path(d)
+        else:
+            arg = d
+        reg = regmod.build_registry(arg, **kwargs)
+    finally:
+        os.chdir(old)
     kws, ans = split_registry(reg)
     check_keyword_side(kws, d, ctx, case, report)
-    check_analyzers(ans, all_ids, report, "build_registry(<custom keyword directory>)")
+    if kwargs and astmap is not None:
+        mods = sorted(astmap)
+        sel = [m for m in mods if (include is None or m in include) and not (exclude and m in exclude)]
+        check_analyzers(ans, [(m, f) for m in sel for f in astmap[m]], report, f"build_registry(<custom keyword directory>, include={include}, exclude={exclude})")
+    else:
+        check_analyzers(ans, all_ids, report, "build_registry(<custom keyword directory>)")
     # shipped keywords must be absent: a probe of well known shipped keywords yields nothing from the keyword side
     probe = b"VirtualAlloc\nCreateObject\nstrlen\nInvoke-Expression\nHKEY_LOCAL_MACHINE"
     listed = set()
@@ -446,6 +490,6 @@ def replay(case, ctx):
             with open(p, "wb") as f:
                 f.write(bytes.fromhex(rawhex))
         astmap = ast_decoders()
-        judge_dir(base, ctx, case, [(m, f) for m, fs in astmap.items() for f in fs])
+        judge_dir(base, ctx, case, [(m, f) for m, fs in astmap.items() for f in fs], False, astmap)
     finally:
         shutil.rmtree(base, ignore_errors=True)
